@@ -2,6 +2,9 @@ import FGVerif.Proofs.C07
 import FGVerif.Proofs.C07Default
 import FGVerif.Proofs.C07Key
 import FGVerif.Proofs.C07Bridge
+import FGVerif.Proofs.C07Strings
+import FGVerif.Proofs.C07KeyGraph
+import FGVerif.Proofs.C07Embeds
 #print axioms C07.hasse
 #print axioms C07.permutation_invariant
 #print axioms C07.sub_irrefl
@@ -25,3 +28,16 @@ import FGVerif.Proofs.C07Bridge
 #print axioms C07.default_hasse
 #print axioms C07.buildTreeE_eq
 #print axioms C07.buildFG_eq
+#print axioms C07.key_eq_patternStr
+#print axioms C07.key_injective_of_distinct_strings
+#print axioms C07.fgKlt_total_of_distinct_strings
+#print axioms C07.default_strings_distinct
+#print axioms C07.gwf_of_gwfB
+#print axioms C07.key_strict_graph
+#print axioms C07.key_counts_graph
+#print axioms C07.fgKlt_of_proper_embedding
+#print axioms C07.embeds_iff
+#print axioms C07.key_strict_embeds
+#print axioms C07.strict_of_matcher_exact
+#print axioms C07.gEmb_iff_c03
+#print axioms C07.default_patterns_wf
